@@ -2,6 +2,7 @@
 acknowledged entry kind has a storage effect (recovery reads storage, never the log)."""
 from ..cfg import Body
 from ..report import where
+from ..facts import in_module as in_module_
 from .. import orderdom as od
 
 LEVEL = "other"
@@ -117,6 +118,24 @@ def run(ctx, F, cg):
         if short.startswith("persist_") and r.get("vis") == "pub":
             ctx.violation("R16e", short + "|never-logs", where(r), "%s neither appends to the WAL nor calls a function that does" % short)
     ctx.floor("R16e", "PersistenceManager functions that append", n16e, 6)
+    # ---- R16f: storage writes keep RocksDB's own durability ---------------------------------------------------------
+    ctx.rule("R16f", "recovery reads RocksDB and never replays the application log, so an acknowledged write must be as durable as RocksDB makes it: no write option in the persistence module disables RocksDB's WAL (disable_wal) — with it off, writes since the last memtable flush are lost by a kill although they were acknowledged")
+    offenders = []
+    n_w = 0
+    for p_, r_ in sorted(F.fns.items()):
+        if not in_module_(p_, "samyama::persistence::") or "::tests::" in p_:
+            continue
+        for c_ in r_["calls"]:
+            if c_.rsplit("::", 1)[-1] in ("put_cf", "put_cf_opt", "delete_cf", "delete_cf_opt", "write", "write_opt", "put", "put_opt", "delete", "delete_opt") and "rocksdb" in c_:
+                n_w += 1
+            if c_.rsplit("::", 1)[-1] == "disable_wal" and "rocksdb" in c_:
+                offenders.append((p_, r_))
+    ctx.floor("R16f", "RocksDB write calls in the persistence module", n_w, 4)
+    if offenders:
+        for p_, r_ in offenders:
+            ctx.violation("R16f", "%s|rocksdb-wal-disabled" % p_.replace("samyama::persistence::", ""), where(r_), "%s builds write options with RocksDB's WAL disabled: entity writes made with them are in the memtable only until the next flush, while recover() relies on RocksDB alone" % p_.rsplit("::", 1)[-1])
+    else:
+        ctx.ok("R16f", "rocksdb-wal-on", "no disable_wal in the persistence module (%d RocksDB write calls)" % n_w)
     # ---- R16d: an update is a read-modify-write that merges ---------------------------------------------------
     ctx.rule("R16d", "a property update writes back the entity it read from storage, and changes its property map only by merging (insert/extend): a wholesale assignment of the map from the argument drops the properties the update did not mention")
     nupd = 0
